@@ -16,6 +16,7 @@ package main
 // the canonical body. Dominance is recomputed by cfg.go (ssa's own dominator fields are never read after this).
 
 import (
+	"os"
 	"fmt"
 	"go/constant"
 	"go/token"
@@ -729,6 +730,10 @@ func (c *Ctx) canonicaliseOnce(depth int) *canonStats {
 				break
 			}
 		}
+	}
+	// function values kept in cells that goroutine closures capture (callbacks of an inlined worker-pool helper)
+	for _, f := range c.ModFuncs {
+		st.promoted += resolveFuncCells(f)
 	}
 	// referrers and register numbers
 	for _, f := range c.ModFuncs {
@@ -2822,6 +2827,242 @@ func splitFuncPhiCalls(f *ssa.Function) int {
 			}
 			if changed {
 				break
+			}
+		}
+	}
+	return n
+}
+
+// ---- function values kept in captured cells ---------------------------------------------------------------------------------
+//
+// A helper that starts goroutines and is handed a callback (`fanOut(jobs, n, work)` with `emit := func(r R) { results <- r }`)
+// leaves, after it has been inlined into its caller H, cells of H that hold a function value, are stored once before the
+// goroutine closures are made and are only loaded inside them. resolveFuncCells gives the goroutine closure G the value itself:
+//   - a cell holding a function constant: every load of it in G becomes that function (the next pass inlines the call);
+//   - a cell holding a closure F over other cells of H: G receives those cells as further free variables and every load becomes
+//     `make closure F [those free variables]` inside G (the next pass inlines the call of a closure made in the same function).
+// Only cells with exactly one store in H and none in any closure are touched, and only when the store dominates the
+// MakeClosure of G.
+
+func resolveFuncCells(h *ssa.Function) int {
+	if len(h.Blocks) == 0 {
+		return 0
+	}
+	delete(domCache, h)
+	dom := domSets(h)
+	// closures made in h and what they bind
+	type made struct {
+		mc *ssa.MakeClosure
+		fn *ssa.Function
+	}
+	var closures []made
+	for _, b := range h.Blocks {
+		for _, in := range b.Instrs {
+			if mc, ok := in.(*ssa.MakeClosure); ok {
+				if fn, _ := mc.Fn.(*ssa.Function); fn != nil && len(fn.Blocks) > 0 {
+					closures = append(closures, made{mc, fn})
+				}
+			}
+		}
+	}
+	if len(closures) == 0 {
+		return 0
+	}
+	storesIn := func(fn *ssa.Function, addr ssa.Value) []*ssa.Store {
+		var out []*ssa.Store
+		for _, b := range fn.Blocks {
+			for _, in := range b.Instrs {
+				if st, ok := in.(*ssa.Store); ok && st.Addr == addr {
+					out = append(out, st)
+				}
+			}
+		}
+		return out
+	}
+	instrBefore := func(a, b ssa.Instruction) bool {
+		if a.Block() == b.Block() {
+			for _, in := range a.Block().Instrs {
+				if in == a {
+					return true
+				}
+				if in == b {
+					return false
+				}
+			}
+		}
+		return dom[b.Block()][a.Block()] // dom[x] is the set of blocks that dominate x
+	}
+	n := 0
+	for _, b := range h.Blocks {
+		for _, in := range b.Instrs {
+			cell, ok := in.(*ssa.Alloc)
+			if !ok {
+				continue
+			}
+			if _, isSig := deref(cell.Type()).Underlying().(*types.Signature); !isSig {
+				continue
+			}
+			sts := storesIn(h, cell)
+			if os.Getenv("SPOKCHECK_DEBUG_CELLS") != "" {
+				fmt.Fprintf(os.Stderr, "cell %s in %s: %d stores, %d closures\n", cell.Name(), h.Name(), len(sts), len(closures))
+			}
+			if len(sts) != 1 {
+				continue
+			}
+			// no store through the free variable in any closure; the cell is not used in any other way in h
+			clean := true
+			for _, cl := range closures {
+				for i, bd := range cl.mc.Bindings {
+					if bd == ssa.Value(cell) && i < len(cl.fn.FreeVars) && len(storesIn(cl.fn, cl.fn.FreeVars[i])) > 0 {
+						clean = false
+					}
+				}
+			}
+			for _, hb := range h.Blocks {
+				for _, hi := range hb.Instrs {
+					switch x := hi.(type) {
+					case *ssa.Store:
+						if x.Val == ssa.Value(cell) {
+							clean = false
+						}
+					case *ssa.MakeClosure, *ssa.UnOp, *ssa.DebugRef:
+					default:
+						for _, op := range hi.Operands(nil) {
+							if *op == ssa.Value(cell) {
+								clean = false
+							}
+						}
+					}
+				}
+			}
+			if os.Getenv("SPOKCHECK_DEBUG_CELLS") != "" {
+				fmt.Fprintf(os.Stderr, "  clean=%v val=%T\n", clean, sts[0].Val)
+			}
+			if !clean {
+				continue
+			}
+			val := sts[0].Val
+			for ct, isCT := val.(*ssa.ChangeType); isCT; ct, isCT = val.(*ssa.ChangeType) {
+				val = ct.X
+			}
+			for _, cl := range closures {
+				if !instrBefore(sts[0], cl.mc) {
+					continue
+				}
+				for i, bd := range cl.mc.Bindings {
+					if bd != ssa.Value(cell) || i >= len(cl.fn.FreeVars) {
+						continue
+					}
+					fv := cl.fn.FreeVars[i]
+					// the loads of the cell inside the closure
+					var loads []*ssa.UnOp
+					for _, gb := range cl.fn.Blocks {
+						for _, gi := range gb.Instrs {
+							if u, ok := gi.(*ssa.UnOp); ok && u.Op == token.MUL && u.X == ssa.Value(fv) {
+								loads = append(loads, u)
+							}
+						}
+					}
+					if os.Getenv("SPOKCHECK_DEBUG_CELLS") != "" {
+						fmt.Fprintf(os.Stderr, "  closure %s fv=%s loads=%d blocks=%d\n", cl.fn.Name(), fv.Name(), len(loads), len(cl.fn.Blocks))
+					}
+					if len(loads) == 0 {
+						continue
+					}
+					var repl ssa.Value
+					switch v := val.(type) {
+					case *ssa.Function:
+						repl = v
+					case *ssa.MakeClosure:
+						inner, _ := v.Fn.(*ssa.Function)
+						if inner == nil || inner == cl.fn {
+							continue
+						}
+						// every binding of the inner closure is a cell of h: hand each to the outer closure as a free variable
+						var binds []ssa.Value
+						okBinds := true
+						for _, ib := range v.Bindings {
+							if _, isCell := ib.(*ssa.Alloc); !isCell {
+								okBinds = false
+								break
+							}
+							var have ssa.Value
+							for j, ob := range cl.mc.Bindings {
+								if ob == ib && j < len(cl.fn.FreeVars) {
+									have = cl.fn.FreeVars[j]
+								}
+							}
+							if have == nil {
+								nfv := &ssa.FreeVar{}
+								setField(nfv, "name", ib.Name()+"$shared")
+								setField(nfv, "typ", ib.Type())
+								setField(nfv, "pos", ib.Pos())
+								setField(nfv, "parent", cl.fn)
+								cl.fn.FreeVars = append(cl.fn.FreeVars, nfv)
+								cl.mc.Bindings = append(cl.mc.Bindings, ib)
+								have = nfv
+							}
+							binds = append(binds, have)
+						}
+						if !okBinds {
+							continue
+						}
+						nmc := &ssa.MakeClosure{Fn: inner, Bindings: binds}
+						setField(nmc, "typ", v.Type())
+						setField(nmc, "pos", v.Pos())
+						setField(nmc, "block", cl.fn.Blocks[0])
+						// after the allocations at the top of the entry block
+						entry := cl.fn.Blocks[0]
+						entry.Instrs = append([]ssa.Instruction{nmc}, entry.Instrs...)
+						repl = nmc
+					default:
+						continue
+					}
+					dead := map[ssa.Instruction]bool{}
+					for _, u := range loads {
+						for _, gb := range cl.fn.Blocks {
+							for _, gi := range gb.Instrs {
+								for _, op := range gi.Operands(nil) {
+									if *op == ssa.Value(u) {
+										*op = repl
+									}
+								}
+							}
+						}
+						dead[u] = true
+					}
+					removeInstrs(cl.fn, dead)
+					n++
+				}
+			}
+			// a cell nobody loads any more: its store (and with it the closure that was kept there) goes
+			loaded := false
+			for _, hb := range h.Blocks {
+				for _, hi := range hb.Instrs {
+					if u, ok := hi.(*ssa.UnOp); ok && u.Op == token.MUL && u.X == ssa.Value(cell) {
+						loaded = true
+					}
+				}
+			}
+			for _, cl := range closures {
+				for i, bd := range cl.mc.Bindings {
+					if bd != ssa.Value(cell) || i >= len(cl.fn.FreeVars) {
+						continue
+					}
+					for _, gb := range cl.fn.Blocks {
+						for _, gi := range gb.Instrs {
+							for _, op := range gi.Operands(nil) {
+								if *op == ssa.Value(cl.fn.FreeVars[i]) {
+									loaded = true
+								}
+							}
+						}
+					}
+				}
+			}
+			if !loaded && n > 0 {
+				removeInstrs(h, map[ssa.Instruction]bool{sts[0]: true})
+				dropDeadClosures(h)
 			}
 		}
 	}
